@@ -17,7 +17,9 @@ for p in sorted(glob.glob(f"{V}/harness/props/c*.py")):
         if isinstance(n, ast.Assign) and any(getattr(t, "id", "") == "PINS" for t in n.targets):
             try:
                 pins = ast.literal_eval(n.value)
-            except Exception:      # not a pure literal: import the module and read the list
+                if "PINS +=" in src or "PINS.extend" in src or "PINS.append" in src:
+                    raise ValueError("extended later")
+            except Exception:      # not a pure literal, or extended after the assignment: import the module and read the list
                 pins = getattr(importlib.import_module("harness.props." + os.path.basename(p)[:-3]), "PINS")
             for rel, qual in pins:
                 t = ast.parse(open(os.path.join("/repo", rel)).read()); node = t
